@@ -9,12 +9,12 @@ Local Open Scope N_scope.
 (* ------------------------------------------------------------- invariant *)
 Definition box_ok (b : mbox) : Prop :=
   asc (uids_of (b_msgs b)) /\ Forall (fun u => 0 < u <= b_maxuid b) (uids_of (b_msgs b)).
-(* maildir: every folder has the same keyword table, no wildcard, and stored
-   flags all have a file-name letter *)
-Definition flags_in (P : fset) (b : mbox) : Prop :=
-  b_perm b = P /\ Forall (fun m => subset (m_flags m) P = true) (b_msgs b).
-Definition maildir_ok (bs : boxes) : Prop :=
-  exists P, mem FWild P = false /\ Forall (fun nb => flags_in P (snd nb)) bs.
+(* maildir: no wildcard in a folder's flag table, and stored flags all have a
+   file-name letter of that folder *)
+Definition flags_in (b : mbox) : Prop :=
+  mem FWild (b_perm b) = false /\
+  Forall (fun m => subset (m_flags m) (b_perm b) = true) (b_msgs b).
+Definition maildir_ok (bs : boxes) : Prop := Forall (fun nb => flags_in (snd nb)) bs.
 Definition sel_ok (bs : boxes) (s : sel) : Prop :=
   exists b, lookup (s_box s) bs = Some b /\ s_view s = b_msgs b /\
             s_perm s = perm_defined (b_perm b).
@@ -85,6 +85,10 @@ Proof.
   apply memN_In, H, memN_In in E. rewrite E. reflexivity.
 Qed.
 
+Lemma assemble_no_expunge items cmp :
+  existsb is_expunge cmp = false -> assemble items cmp = fold_left add_untagged cmp items.
+Proof. intros H. unfold assemble. rewrite H. reflexivity. Qed.
+
 (* ------------------------------------------- finish after a flags-only change *)
 Lemma finish_flags_only b s (g : N * msg -> msg) sil wu items :
   s_view s = b_msgs b -> NoDup (uids_of (b_msgs b)) ->
@@ -104,7 +108,9 @@ Proof.
   assert (Hu : uids_of (map g (enumerate (b_msgs b))) = uids_of (b_msgs b))
     by (apply uids_map_same; exact Hg).
   rewrite finish_rec_keep by (rewrite Hu; auto).
-  f_equal. f_equal. rewrite compare_flags_only by exact Hu.
+  f_equal. rewrite compare_flags_only by exact Hu. rewrite assemble_no_expunge.
+  2:{ clear. induction (filter _ _) as [|x r IH]; [reflexivity|exact IH]. }
+  f_equal.
   unfold enumerate in *. rewrite enum_map_enum. rewrite filter_map_comm, map_map. cbn [fst snd].
   unfold flags_item. f_equal. apply filter_ext_in. intros [q m] Hi. cbn [snd].
   rewrite (key_in_unique (g (q, m)) m (b_msgs b) Hnd); [reflexivity| |].
@@ -147,7 +153,8 @@ Lemma finish_remove_add b' s keep new rec wu pre :
 Proof.
   intros Hnd Hb Hnew Hrec Hpre rec1. unfold finish. fold rec1. f_equal.
   rewrite Hb. rewrite compare_remove_add; [|exact Hnd|exact Hnew|].
-  - rewrite fold_add_fresh.
+  - unfold assemble. destruct (existsb is_expunge _); [unfold arrivals; rewrite <- Hb; reflexivity|].
+    rewrite fold_add_fresh.
     + unfold arrivals. rewrite <- Hb. reflexivity.
     + rewrite !fetch_seqs_app, expunge_lines_seqs. cbn [app].
       destruct (_ <=? _)%nat; cbn [fetch_seqs flat_map app].
@@ -158,4 +165,24 @@ Proof.
     + intros q _. rewrite Hpre. intros [].
   - intros m Hm Hk Hr. apply (Hrec m Hm Hk). unfold rec1 in Hr. rewrite memN_filter in Hr.
     apply andb_true_iff in Hr. apply Hr.
+Qed.
+
+(* ---- hide_expunged changes nothing when no message of the view is gone *)
+Lemma keep_pending_same told now :
+  (forall u, In u (uids_of told) -> In u (uids_of now)) -> keep_pending told now = now.
+Proof.
+  intros H. unfold keep_pending. rewrite filter_none; [reflexivity|].
+  intros m Hm. apply negb_false_iff, memN_In, H, in_map, Hm.
+Qed.
+
+Lemma post_recent_same h b s rec :
+  (forall u, In u (uids_of (s_view s)) -> In u (uids_of (b_msgs b))) -> post_recent h b s rec = rec.
+Proof. intros H. unfold post_recent. destruct h; [reflexivity|]. apply finish_rec_keep, H. Qed.
+
+Lemma finish_h_same h b s rec sil wu items :
+  (forall u, In u (uids_of (s_view s)) -> In u (uids_of (b_msgs b))) ->
+  finish_h h b s rec sil wu items = finish b s rec sil wu items.
+Proof.
+  intros H. unfold finish_h, finish. destruct h; [|reflexivity].
+  rewrite keep_pending_same by exact H. rewrite finish_rec_keep by exact H. reflexivity.
 Qed.
